@@ -209,6 +209,10 @@ func (g *gen) value(from int, t *TExpr, depth int) *CV {
 			case "ref":
 				if crt.Target == rt.Target {
 					same = append(same, c)
+				} else if crt.Target != nil && rt.Target != nil && crt.Target.Kind == 'S' && rt.Target.Kind == 'S' && g.r.Chance(1, 3) {
+					// a constant of ANOTHER struct type: the cast goes through the fields by
+					// name (it may fail); the referenced constant must keep its own value
+					same = append(same, c)
 				}
 			case "list", "set", "map":
 				if crt.Text() == rt.Text() && c.Ty.Text() == t.Text() {
@@ -613,11 +617,18 @@ func valueDeps(t *TExpr, v *CV, out *[]*Def) {
 	if v == nil {
 		return
 	}
+	rt := rootExpr(t)
 	if v.Kind == 'r' && v.Target != nil {
 		*out = append(*out, v.Target)
+		// a constant of another struct type is cast field by field, like a literal of the
+		// struct it is cast to (completed with that struct's defaults)
+		if rt != nil && rt.Kind == "ref" && rt.Target != nil && rt.Target.Kind == 'S' {
+			if crt := rootExpr(v.Target.Ty); crt == nil || crt.Target != rt.Target {
+				*out = append(*out, rt.Target)
+			}
+		}
 		return
 	}
-	rt := rootExpr(t)
 	if rt == nil {
 		return
 	}
